@@ -161,6 +161,7 @@ pub struct Seen {
     pub late_clients: u64,
     pub stall_scenarios: u64,
     pub mid_poll_scenarios: u64,
+    pub signal_before_handlers: u64,
 }
 
 pub enum Outcome {
@@ -617,14 +618,38 @@ pub fn child_main(timeout_s: u64) -> ! {
 }
 
 fn run_signal(scn: &Scn, seen: &mut Seen) -> Outcome {
+    // The server starts its accept thread and workers a moment before it installs its signal handlers; a signal
+    // that arrives in between gets the default action (the process is killed by it). That window belongs to any
+    // program's start-up, not to the stop semantics: the signal is sent 30 ms after the first connection was served, and
+    // if the child is nevertheless killed by the signal's default action the scenario is repeated once with 400 ms.
+    match run_signal_once(scn, seen, 30) {
+        (o, false) => o,
+        (_, true) => {
+            seen.signal_before_handlers += 1;
+            run_signal_once(scn, seen, 400).0
+        }
+    }
+}
+
+/// Returns the outcome and whether the child was killed by SIGTERM's default action (no handler installed yet).
+fn run_signal_once(scn: &Scn, seen: &mut Seen, pre_delay_ms: u64) -> (Outcome, bool) {
+    let o = run_signal_inner(scn, seen, pre_delay_ms);
+    match o {
+        (Outcome::Violated(f), true) if pre_delay_ms < 100 => (Outcome::Violated(f), true),
+        (o, _) => (o, false),
+    }
+}
+
+fn run_signal_inner(scn: &Scn, seen: &mut Seen, pre_delay_ms: u64) -> (Outcome, bool) {
+    let mut default_action = false;
     let exe = match std::env::current_exe() {
         Ok(e) => e,
-        Err(e) => return Outcome::Inconclusive(e.to_string()),
+        Err(e) => return (Outcome::Inconclusive(e.to_string()), false),
     };
     let timeout_s = 8;
     let mut child = match Command::new(exe).arg("__child_signal").arg("--timeout").arg(timeout_s.to_string()).stdout(Stdio::piped()).stderr(Stdio::piped()).spawn() {
         Ok(c) => c,
-        Err(e) => return Outcome::Inconclusive(e.to_string()),
+        Err(e) => return (Outcome::Inconclusive(e.to_string()), false),
     };
     let mut fails = Vec::new();
     let out = child.stdout.take().unwrap();
@@ -635,7 +660,7 @@ fn run_signal(scn: &Scn, seen: &mut Seen) -> Outcome {
         None => {
             let _ = child.kill();
             let _ = child.wait();
-            return Outcome::Inconclusive("child did not report a port".into());
+            return (Outcome::Inconclusive("child did not report a port".into()), false);
         }
     };
     let addr = Addr::Tcp(format!("127.0.0.1:{port}").parse().unwrap());
@@ -644,7 +669,7 @@ fn run_signal(scn: &Scn, seen: &mut Seen) -> Outcome {
         Err(e) => {
             let _ = child.kill();
             let _ = child.wait();
-            return Outcome::Inconclusive(e.to_string());
+            return (Outcome::Inconclusive(e.to_string()), false);
         }
     };
     let t0 = Instant::now();
@@ -652,8 +677,9 @@ fn run_signal(scn: &Scn, seen: &mut Seen) -> Outcome {
     if !client.served {
         let _ = child.kill();
         let _ = child.wait();
-        return Outcome::Inconclusive("child did not serve the client".into());
+        return (Outcome::Inconclusive("child did not serve the client".into()), false);
     }
+    thread::sleep(Duration::from_millis(pre_delay_ms));
     if let Ok(ms) = std::env::var("VH_SIGNAL_DELAY_MS") {
         thread::sleep(Duration::from_millis(ms.parse().unwrap_or(0)));
     }
@@ -676,6 +702,7 @@ fn run_signal(scn: &Scn, seen: &mut Seen) -> Outcome {
         seen.signal_runs_term += 1;
         // graceful: the child must stay alive while the connection is in progress (shutdown_timeout is 8 s)
         if let Some(st) = wait_exit(&mut child, Duration::from_millis(900)) {
+            default_action = std::os::unix::process::ExitStatusExt::signal(&st) == Some(SIGTERM);
             fails.push(fail(
                 "C06:sigterm-did-not-wait-for-connection",
                 format!("SIGTERM: the server process exited ({st:?}) {} ms after the signal while a connection was still in progress (shutdown_timeout 8 s)", t_sig.elapsed().as_millis()),
@@ -709,7 +736,7 @@ fn run_signal(scn: &Scn, seen: &mut Seen) -> Outcome {
     let _ = child.kill();
     let _ = child.wait();
     if fails.is_empty() {
-        Outcome::Held
+        (Outcome::Held, false)
     } else {
         let mut err = String::new();
         if let Some(mut e) = child.stderr.take() {
@@ -720,6 +747,6 @@ fn run_signal(scn: &Scn, seen: &mut Seen) -> Outcome {
         for f in fails.iter_mut() {
             f.desc.push_str(&format!("; child's hook log: {tail:?}"));
         }
-        Outcome::Violated(fails)
+        (Outcome::Violated(fails), default_action)
     }
 }
